@@ -75,7 +75,7 @@ func c17FramesText(fs []c17SampleFrames) string {
 }
 
 // c17Oracle returns true when no statement of the property failed.
-func c17Oracle(c *Ctx, cs c17Case, s *c17Set, frames []c17SampleFrames) bool {
+func c17Oracle(c *Ctx, cs c17Case, s *c17Set, frames []c17SampleFrames, withFrames bool) bool {
 	ok := true
 	bad := func(sig, what string) {
 		ok = false
@@ -128,55 +128,57 @@ func c17Oracle(c *Ctx, cs c17Case, s *c17Set, frames []c17SampleFrames) bool {
 		return false
 	}
 	// one stack per sample, in order, with the sample's selected value
-	if len(s.Stacks) != len(frames) {
-		bad("C17/stacks/count", fmt.Sprintf("%d stacks for %d samples", len(s.Stacks), len(frames)))
-		return false
-	}
-	var sumStacks, sumSamples int64
-	keyOf := map[int]c17Key{}   // source index -> the frame identity it stands for
-	idxOf := map[c17Key]int{}   // frame identity -> source index
-	for a, st := range s.Stacks {
-		sf := frames[a]
-		sumStacks += st.Value
-		sumSamples += sf.Value
-		if st.Value != sf.Value {
-			bad("C17/stack/value", fmt.Sprintf("Stacks[%d].Value = %d, sample value %d", a, st.Value, sf.Value))
+	if withFrames {
+		if len(s.Stacks) != len(frames) {
+			bad("C17/stacks/count", fmt.Sprintf("%d stacks for %d samples", len(s.Stacks), len(frames)))
+			return false
 		}
-		if len(st.Srcs) == 0 || st.Srcs[0] != 0 {
-			bad("C17/stack/root", fmt.Sprintf("Stacks[%d] does not start at the root source 0", a))
-			continue
-		}
-		if len(st.Srcs) != 1+len(sf.Frames) {
-			bad("C17/stack/frames-length", fmt.Sprintf("Stacks[%d] has %d frames, the sample has %d", a, len(st.Srcs)-1, len(sf.Frames)))
-			continue
-		}
-		for b, f := range sf.Frames {
-			i := st.Srcs[b+1]
-			x := s.Sources[i]
-			if i == 0 {
-				bad("C17/frame/is-root", fmt.Sprintf("Stacks[%d].Sources[%d] is the synthetic root", a, b+1))
+		var sumStacks, sumSamples int64
+		keyOf := map[int]c17Key{} // source index -> the frame identity it stands for
+		idxOf := map[c17Key]int{} // frame identity -> source index
+		for a, st := range s.Stacks {
+			sf := frames[a]
+			sumStacks += st.Value
+			sumSamples += sf.Value
+			if st.Value != sf.Value {
+				bad("C17/stack/value", fmt.Sprintf("Stacks[%d].Value = %d, sample value %d", a, st.Value, sf.Value))
+			}
+			if len(st.Srcs) == 0 || st.Srcs[0] != 0 {
+				bad("C17/stack/root", fmt.Sprintf("Stacks[%d] does not start at the root source 0", a))
 				continue
 			}
-			if x.Inlined != f.Inlined {
-				bad("C17/frame/inlined-flag", fmt.Sprintf("Stacks[%d] frame %d (%q): Inlined=%v, the line is inlined=%v", a, b, f.Name, x.Inlined, f.Inlined))
+			if len(st.Srcs) != 1+len(sf.Frames) {
+				bad("C17/stack/frames-length", fmt.Sprintf("Stacks[%d] has %d frames, the sample has %d", a, len(st.Srcs)-1, len(sf.Frames)))
+				continue
 			}
-			if f.Name != "" && !(x.Full == f.Name || strings.HasPrefix(x.Full, f.Name+":")) && c17PlainASCII(f.Name) {
-				bad("C17/frame/name", fmt.Sprintf("Stacks[%d] frame %d: source %q for function %q", a, b, x.Full, f.Name))
+			for b, f := range sf.Frames {
+				i := st.Srcs[b+1]
+				x := s.Sources[i]
+				if i == 0 {
+					bad("C17/frame/is-root", fmt.Sprintf("Stacks[%d].Sources[%d] is the synthetic root", a, b+1))
+					continue
+				}
+				if x.Inlined != f.Inlined {
+					bad("C17/frame/inlined-flag", fmt.Sprintf("Stacks[%d] frame %d (%q): Inlined=%v, the line is inlined=%v", a, b, f.Name, x.Inlined, f.Inlined))
+				}
+				if f.Name != "" && !(x.Full == f.Name || strings.HasPrefix(x.Full, f.Name+":")) && c17PlainASCII(f.Name) {
+					bad("C17/frame/name", fmt.Sprintf("Stacks[%d] frame %d: source %q for function %q", a, b, x.Full, f.Name))
+				}
+				k := f.key()
+				if k0, seen := keyOf[i]; seen && k0 != k {
+					bad("C17/frame/identity-merged", fmt.Sprintf("source %d stands for two different frames %+v and %+v", i, k0, k))
+				}
+				keyOf[i] = k
+				if i0, seen := idxOf[k]; seen && i0 != i {
+					bad("C17/frame/identity-split", fmt.Sprintf("frame %+v is source %d and source %d", k, i0, i))
+				}
+				idxOf[k] = i
 			}
-			k := f.key()
-			if k0, seen := keyOf[i]; seen && k0 != k {
-				bad("C17/frame/identity-merged", fmt.Sprintf("source %d stands for two different frames %+v and %+v", i, k0, k))
-			}
-			keyOf[i] = k
-			if i0, seen := idxOf[k]; seen && i0 != i {
-				bad("C17/frame/identity-split", fmt.Sprintf("frame %+v is source %d and source %d", k, i0, i))
-			}
-			idxOf[k] = i
 		}
-	}
-	if sumStacks != sumSamples {
-		bad("C17/values/sum", fmt.Sprintf("stack values sum to %d, selected sample values to %d", sumStacks, sumSamples))
-	}
+		if sumStacks != sumSamples {
+			bad("C17/values/sum", fmt.Sprintf("stack values sum to %d, selected sample values to %d", sumStacks, sumSamples))
+		}
+	} // withFrames
 	if len(s.Sources) == 0 {
 		bad("C17/sources/no-root", "no root source")
 		return false
